@@ -126,11 +126,11 @@ theorem removeFree_spec (val : ν → Rat) (shells : List (Shell ν))
 
 open Submodule in
 /-- one step of optimize_general: zero row `r` in every column except `s` -/
-def zeroRow {n m : ℕ} (cols : Fin m → (Fin n → ℚ)) (r : Fin n) (s : Fin m) : Fin m → (Fin n → ℚ) :=
+def zeroRow {ι κ : Type} [DecidableEq ι] [DecidableEq κ] (cols : ι → (κ → ℚ)) (r : κ) (s : ι) : ι → (κ → ℚ) :=
   fun j => if j = s then cols j else Function.update (cols j) r 0
 
-theorem zeroRow_eq {n m : ℕ} (cols : Fin m → (Fin n → ℚ)) (r : Fin n) (s : Fin m)
-    (hs : ∀ i, i ≠ r → cols s i = 0) (hr : cols s r ≠ 0) (j : Fin m) (hj : j ≠ s) :
+theorem zeroRow_eq {ι κ : Type} [DecidableEq ι] [DecidableEq κ] (cols : ι → (κ → ℚ)) (r : κ) (s : ι)
+    (hs : ∀ i, i ≠ r → cols s i = 0) (hr : cols s r ≠ 0) (j : ι) (hj : j ≠ s) :
     zeroRow cols r s j = cols j - (cols j r / cols s r) • cols s := by
   funext i
   simp only [zeroRow, hj, if_false, Pi.sub_apply, Pi.smul_apply, smul_eq_mul]
@@ -144,7 +144,7 @@ theorem zeroRow_eq {n m : ℕ} (cols : Fin m → (Fin n → ℚ)) (r : Fin n) (s
 open Submodule in
 /-- **zeroing the row of a free primitive in every other column does not change the linear span
 of the columns** — the step `optimize_general` repeats for every free primitive -/
-theorem span_zeroRow {n m : ℕ} (cols : Fin m → (Fin n → ℚ)) (r : Fin n) (s : Fin m)
+theorem span_zeroRow {ι κ : Type} [DecidableEq ι] [DecidableEq κ] (cols : ι → (κ → ℚ)) (r : κ) (s : ι)
     (hs : ∀ i, i ≠ r → cols s i = 0) (hr : cols s r ≠ 0) :
     span ℚ (Set.range (zeroRow cols r s)) = span ℚ (Set.range cols) := by
   have hss : zeroRow cols r s s = cols s := by simp [zeroRow]
@@ -165,7 +165,7 @@ theorem span_zeroRow {n m : ℕ} (cols : Fin m → (Fin n → ℚ)) (r : Fin n) 
       exact add_mem (subset_span ⟨j, rfl⟩) (smul_mem _ _ (subset_span ⟨s, rfl⟩))
 
 /-- zeroing never creates a non-zero entry: the non-zero count cannot grow -/
-theorem zeroRow_support {n m : ℕ} (cols : Fin m → (Fin n → ℚ)) (r : Fin n) (s : Fin m) (j : Fin m) (i : Fin n)
+theorem zeroRow_support {ι κ : Type} [DecidableEq ι] [DecidableEq κ] (cols : ι → (κ → ℚ)) (r : κ) (s : ι) (j : ι) (i : κ)
     (h : zeroRow cols r s j i ≠ 0) : cols j i ≠ 0 := by
   unfold zeroRow at h
   split at h
@@ -182,29 +182,43 @@ such columns sit on the same row).  `zeroAll` is that sweep; it keeps the span, 
 `span_zeroRow` as the step. -/
 
 /-- the sweep: entry `(j, i)` is zeroed when some pair `(i, s)` with `s ≠ j` exists -/
-def zeroAll {n m : ℕ} (cols : Fin m → (Fin n → ℚ)) (pairs : List (Fin n × Fin m)) : Fin m → (Fin n → ℚ) :=
+def zeroAll {ι κ : Type} [DecidableEq ι] [DecidableEq κ] (cols : ι → (κ → ℚ)) (pairs : List (κ × ι)) : ι → (κ → ℚ) :=
   fun j i => if ∃ p ∈ pairs, p.1 = i ∧ p.2 ≠ j then 0 else cols j i
 
-theorem zeroAll_nil {n m : ℕ} (cols : Fin m → (Fin n → ℚ)) : zeroAll cols [] = cols := by
+theorem zeroAll_nil {ι κ : Type} [DecidableEq ι] [DecidableEq κ] (cols : ι → (κ → ℚ)) : zeroAll cols [] = cols := by
   funext j i; simp [zeroAll]
 
-theorem zeroAll_cons {n m : ℕ} (cols : Fin m → (Fin n → ℚ)) (p : Fin n × Fin m) (ps : List (Fin n × Fin m)) :
+theorem zeroAll_apply {ι κ : Type} [DecidableEq ι] [DecidableEq κ] (cols : ι → (κ → ℚ)) (ps : List (κ × ι)) (j : ι) (i : κ) :
+    zeroAll cols ps j i = if ∃ p ∈ ps, p.1 = i ∧ p.2 ≠ j then 0 else cols j i := rfl
+
+theorem zeroAll_cons {ι κ : Type} [DecidableEq ι] [DecidableEq κ] (cols : ι → (κ → ℚ)) (p : κ × ι) (ps : List (κ × ι)) :
     zeroAll cols (p :: ps) = zeroRow (zeroAll cols ps) p.1 p.2 := by
   funext j i
-  simp only [zeroAll, zeroRow, List.mem_cons, exists_eq_or_imp]
-  by_cases hj : j = p.2
-  · subst hj; simp [zeroAll]
-  · by_cases hi : i = p.1
-    · subst hi
-      have : p.2 ≠ j := fun h => hj h.symm
-      simp [hj, this]
-    · have : ¬ (p.1 = i) := fun h => hi h.symm
-      simp [hj, this, Function.update_of_ne hi, zeroAll]
+  simp only [zeroAll_apply, zeroRow, List.mem_cons, exists_eq_or_imp]
+  by_cases hB : ∃ a ∈ ps, a.1 = i ∧ a.2 ≠ j
+  · -- already zeroed by an earlier pair
+    rw [if_pos (Or.inr hB)]
+    by_cases hj : j = p.2
+    · rw [if_pos hj, zeroAll_apply, if_pos hB]
+    · rw [if_neg hj]
+      by_cases hi : i = p.1
+      · subst hi; simp
+      · rw [Function.update_of_ne hi, zeroAll_apply, if_pos hB]
+  · by_cases hj : j = p.2
+    · have hA : ¬ (p.1 = i ∧ p.2 ≠ j) := fun h => h.2 hj.symm
+      rw [if_neg (by rintro (h | h); exact hA h; exact hB h), if_pos hj, zeroAll_apply, if_neg hB]
+    · rw [if_neg hj]
+      by_cases hi : i = p.1
+      · subst hi
+        rw [if_pos (Or.inl ⟨rfl, fun h => hj h.symm⟩)]
+        simp
+      · have hA : ¬ (p.1 = i ∧ p.2 ≠ j) := fun h => hi h.1.symm
+        rw [if_neg (by rintro (h | h); exact hA h; exact hB h), Function.update_of_ne hi, zeroAll_apply, if_neg hB]
 
 open Submodule in
 /-- **the whole sweep of optimize_general keeps the linear span of the contractions**, for any number of free
 primitives: every pair names a column whose only non-zero entry is in the pair's row, rows pairwise different -/
-theorem span_zeroAll {n m : ℕ} (cols : Fin m → (Fin n → ℚ)) (pairs : List (Fin n × Fin m))
+theorem span_zeroAll {ι κ : Type} [DecidableEq ι] [DecidableEq κ] (cols : ι → (κ → ℚ)) (pairs : List (κ × ι))
     (hsingle : ∀ p ∈ pairs, (∀ i, i ≠ p.1 → cols p.2 i = 0) ∧ cols p.2 p.1 ≠ 0)
     (hrows : (pairs.map (·.1)).Nodup) :
     span ℚ (Set.range (zeroAll cols pairs)) = span ℚ (Set.range cols) := by
@@ -228,7 +242,7 @@ theorem span_zeroAll {n m : ℕ} (cols : Fin m → (Fin n → ℚ)) (pairs : Lis
         exact hnot (List.mem_map.2 ⟨q, hq, hq1⟩)
 
 /-- the sweep never creates a non-zero entry, and never touches a single-primitive column itself -/
-theorem zeroAll_support {n m : ℕ} (cols : Fin m → (Fin n → ℚ)) (pairs : List (Fin n × Fin m)) (j : Fin m) (i : Fin n)
+theorem zeroAll_support {ι κ : Type} [DecidableEq ι] [DecidableEq κ] (cols : ι → (κ → ℚ)) (pairs : List (κ × ι)) (j : ι) (i : κ)
     (h : zeroAll cols pairs j i ≠ 0) : cols j i ≠ 0 := by
   unfold zeroAll at h
   split at h
@@ -236,8 +250,8 @@ theorem zeroAll_support {n m : ℕ} (cols : Fin m → (Fin n → ℚ)) (pairs : 
   · exact h
 
 /-- after the sweep a free primitive's row is non-zero only in its own column -/
-theorem zeroAll_row_exclusive {n m : ℕ} (cols : Fin m → (Fin n → ℚ)) (pairs : List (Fin n × Fin m))
-    (p : Fin n × Fin m) (hp : p ∈ pairs) (j : Fin m) (hj : j ≠ p.2) : zeroAll cols pairs j p.1 = 0 := by
+theorem zeroAll_row_exclusive {ι κ : Type} [DecidableEq ι] [DecidableEq κ] (cols : ι → (κ → ℚ)) (pairs : List (κ × ι))
+    (p : κ × ι) (hp : p ∈ pairs) (j : ι) (hj : j ≠ p.2) : zeroAll cols pairs j p.1 = 0 := by
   unfold zeroAll
   rw [if_pos ⟨p, hp, rfl, fun h => hj h.symm⟩]
 
@@ -247,6 +261,190 @@ example : let cols : Fin 3 → (Fin 3 → ℚ) := ![![1, 2, 3], ![0, 5, 0], ![0,
   intro cols
   funext i
   fin_cases i <;> simp [zeroAll, cols]
+
+/-! ### from the abstract sweep to the list-level `optimizeShell` -/
+
+/-- a coefficient column as a vector indexed by the primitive number (zero beyond its end) -/
+def vecOf (val : ν → ℚ) (c : List ν) : ℕ → ℚ := fun i => ((c[i]?).map val).getD 0
+
+/-- the columns of a shell as a family indexed by the column number (the zero vector beyond the last column) -/
+def famOf (val : ν → ℚ) (coefs : List (List ν)) : ℕ → (ℕ → ℚ) := fun j => vecOf val ((coefs[j]?).getD [])
+
+/-- the set of column vectors of a shell -/
+def colVecs (val : ν → ℚ) (coefs : List (List ν)) : Set (ℕ → ℚ) := {v | ∃ c ∈ coefs, v = vecOf val c}
+
+theorem vecOf_nil (val : ν → ℚ) : vecOf val [] = 0 := by
+  funext i; simp [vecOf]
+
+open Submodule in
+theorem span_famOf (val : ν → ℚ) (coefs : List (List ν)) :
+    span ℚ (Set.range (famOf val coefs)) = span ℚ (colVecs val coefs) := by
+  apply le_antisymm
+  · rw [span_le]
+    rintro _ ⟨j, rfl⟩
+    unfold famOf
+    cases hj : coefs[j]? with
+    | none => simp only [Option.getD_none, vecOf_nil]; exact zero_mem _
+    | some c => exact subset_span ⟨c, List.mem_of_getElem? hj, rfl⟩
+  · rw [span_le]
+    rintro _ ⟨c, hc, rfl⟩
+    obtain ⟨j, hj, rfl⟩ := List.mem_iff_getElem.1 hc
+    exact subset_span ⟨j, by simp [famOf, List.getElem?_eq_getElem hj]⟩
+
+/-- the matrix `optimizeShell` builds before it drops the emptied columns -/
+def zeroedOf (val : ν → ℚ) (zero : ν) (coefs : List (List ν)) (pairs : List (ℕ × ℕ)) : List (List ν) :=
+  coefs.zipIdx.map fun pc =>
+    pc.1.zipIdx.map fun ce =>
+      if val ce.1 != 0 ∧ pairs.any (fun p => p.1 = ce.2 ∧ p.2 ≠ pc.2) then zero else ce.1
+
+theorem famOf_zeroedOf (val : ν → ℚ) (zero : ν) (hz : val zero = 0) (coefs : List (List ν)) (pairs : List (ℕ × ℕ)) :
+    famOf val (zeroedOf val zero coefs pairs) = zeroAll (famOf val coefs) pairs := by
+  funext j i
+  rw [zeroAll_apply]
+  unfold famOf vecOf zeroedOf
+  rw [List.getElem?_map, List.getElem?_zipIdx]
+  cases hj : coefs[j]? with
+  | none => simp
+  | some col =>
+    simp only [Option.map_some, Option.getD_some, Nat.zero_add]
+    rw [List.getElem?_map, List.getElem?_zipIdx]
+    cases hi : col[i]? with
+    | none => simp
+    | some x =>
+      simp only [Option.map_some, Option.getD_some, Nat.zero_add]
+      by_cases hB : ∃ p ∈ pairs, p.1 = i ∧ p.2 ≠ j
+      · rw [if_pos hB]
+        have hany : pairs.any (fun p => decide (p.1 = i ∧ ¬p.2 = j)) = true := by
+          obtain ⟨p, hp, h1, h2⟩ := hB
+          exact List.any_eq_true.2 ⟨p, hp, by simp [h1, h2]⟩
+        by_cases hx : val x = 0
+        · have : ¬ ((val x != 0) = true ∧ pairs.any (fun p => decide (p.1 = i ∧ ¬p.2 = j)) = true) := by
+            rintro ⟨h, _⟩; simp [hx] at h
+          rw [if_neg this, hx]
+        · rw [if_pos ⟨by simpa using hx, hany⟩, hz]
+      · rw [if_neg hB]
+        have hany : ¬ (pairs.any (fun p => decide (p.1 = i ∧ ¬p.2 = j)) = true) := by
+          intro h
+          obtain ⟨p, hp, hd⟩ := List.any_eq_true.1 h
+          exact hB ⟨p, hp, by simpa using hd⟩
+        rw [if_neg (fun h => hany h.2)]
+
+/-- in a column with exactly one non-zero entry, two non-zero positions coincide -/
+theorem single_nonzero_unique (val : ν → ℚ) (col : List ν) (h1 : (col.filter (fun c => val c != 0)).length = 1) :
+    ∀ (r i : ℕ) (x y : ν), col[r]? = some x → col[i]? = some y → val x ≠ 0 → val y ≠ 0 → r = i := by
+  induction col with
+  | nil => intro r i x y hx; simp at hx
+  | cons a as ih =>
+    intro r i x y hx hy hxn hyn
+    by_cases ha : val a = 0
+    · -- the head is zero: both positions are in the tail
+      have hf : (as.filter (fun c => val c != 0)).length = 1 := by
+        simpa [List.filter_cons, ha] using h1
+      cases r with
+      | zero => simp at hx; subst hx; exact absurd ha hxn
+      | succ r' =>
+        cases i with
+        | zero => simp at hy; subst hy; exact absurd ha hyn
+        | succ i' =>
+          have := ih hf r' i' x y (by simpa using hx) (by simpa using hy) hxn hyn
+          omega
+    · -- the head is the non-zero entry: the tail has none
+      have hf : as.filter (fun c => val c != 0) = [] := by
+        have : (a :: as.filter (fun c => val c != 0)).length = 1 := by simpa [List.filter_cons, ha] using h1
+        exact List.eq_nil_of_length_eq_zero (by simpa using this)
+      have htail : ∀ (k : ℕ) (z : ν), as[k]? = some z → val z = 0 := by
+        intro k z hk
+        apply Classical.byContradiction
+        intro hz
+        have : z ∈ as.filter (fun c => val c != 0) := List.mem_filter.2 ⟨List.mem_of_getElem? hk, by simpa using hz⟩
+        rw [hf] at this; cases this
+      cases r with
+      | zero =>
+        cases i with
+        | zero => rfl
+        | succ i' => exact absurd (htail i' y (by simpa using hy)) hyn
+      | succ r' => exact absurd (htail r' x (by simpa using hx)) hxn
+
+theorem mem_nonzeroRows (val : ν → ℚ) (col : List ν) (r : ℕ) (h : r ∈ nonzeroRows val col) :
+    ∃ x, col[r]? = some x ∧ val x ≠ 0 := by
+  unfold nonzeroRows at h
+  obtain ⟨p, hp, rfl⟩ := List.mem_map.1 h
+  obtain ⟨hm, hnz⟩ := List.mem_filter.1 hp
+  have := List.mem_zipIdx_iff_getElem?.1 hm
+  exact ⟨p.1, by simpa using this, by simpa using hnz⟩
+
+/-- every pair `optimize_general` collects names a column whose only non-zero entry sits in the pair's row -/
+theorem rowColPairs_single (val : ν → ℚ) (coefs : List (List ν)) :
+    ∀ p ∈ rowColPairs val coefs, (∀ i, i ≠ p.1 → famOf val coefs p.2 i = 0) ∧ famOf val coefs p.2 p.1 ≠ 0 := by
+  intro p hp
+  unfold rowColPairs at hp
+  obtain ⟨cs, hcs, hp'⟩ := List.mem_flatMap.1 hp
+  obtain ⟨hm, hsingle⟩ := List.mem_filter.1 hcs
+  obtain ⟨r, hr, rfl⟩ := List.mem_map.1 hp'
+  have hcol : coefs[cs.2]? = some cs.1 := by
+    have := List.mem_zipIdx_iff_getElem?.1 hm
+    simpa using this
+  obtain ⟨x, hx, hxn⟩ := mem_nonzeroRows val cs.1 r hr
+  have h1 : (cs.1.filter (fun c => val c != 0)).length = 1 := by
+    simpa [isSingleColumn] using hsingle
+  refine ⟨?_, ?_⟩
+  · intro i hi
+    simp only [famOf, vecOf, hcol, Option.getD_some]
+    cases hy : cs.1[i]? with
+    | none => simp
+    | some y =>
+      simp only [Option.map_some, Option.getD_some]
+      apply Classical.byContradiction
+      intro hyn
+      exact hi (single_nonzero_unique val cs.1 h1 r i x y hx hy hxn hyn).symm
+  · simp only [famOf, vecOf, hcol, Option.getD_some, hx, Option.map_some]
+    exact hxn
+
+open Submodule in
+/-- dropping the columns that are zero everywhere does not change the span -/
+theorem span_filter_nonzero (val : ν → ℚ) (Z : List (List ν)) :
+    span ℚ (colVecs val (Z.filter fun col => col.any (fun c => val c != 0))) = span ℚ (colVecs val Z) := by
+  apply le_antisymm
+  · apply span_mono
+    rintro _ ⟨c, hc, rfl⟩
+    exact ⟨c, (List.mem_filter.1 hc).1, rfl⟩
+  · rw [span_le]
+    rintro _ ⟨c, hc, rfl⟩
+    by_cases hnz : c.any (fun x => val x != 0) = true
+    · exact subset_span ⟨c, List.mem_filter.2 ⟨hc, hnz⟩, rfl⟩
+    · have hzero : vecOf val c = 0 := by
+        funext i
+        simp only [vecOf, Pi.zero_apply]
+        cases hi : c[i]? with
+        | none => rfl
+        | some x =>
+          simp only [Option.map_some, Option.getD_some]
+          apply Classical.byContradiction
+          intro hx
+          exact hnz (List.any_eq_true.2 ⟨x, List.mem_of_getElem? hi, by simpa using hx⟩)
+      rw [hzero]; exact zero_mem _
+
+open Submodule in
+/-- **`optimize_general` on one shell keeps the linear span of its contractions** — the list-level function of the
+model (the one the driver runs against `manip.optimize_general`), for every shell it accepts: the sweep over all
+free primitives and the dropping of emptied contractions included -/
+theorem optimizeShell_span (val : ν → ℚ) (zero : ν) (hz : val zero = 0) (sh sh' : Shell ν)
+    (h : optimizeShell val zero sh = .ok sh') :
+    span ℚ (colVecs val sh'.coefs) = span ℚ (colVecs val sh.coefs) := by
+  unfold optimizeShell at h
+  split at h
+  · cases h; rfl
+  · simp only at h
+    split at h
+    · cases h
+    · rename_i hnd
+      cases h
+      have hnd' : ((rowColPairs val sh.coefs).map (·.1)).Nodup := by
+        apply Classical.byContradiction
+        intro hc; exact hnd hc
+      show span ℚ (colVecs val ((zeroedOf val zero sh.coefs (rowColPairs val sh.coefs)).filter fun col => col.any (fun c => val c != 0))) = _
+      rw [span_filter_nonzero, ← span_famOf, famOf_zeroedOf val zero hz,
+        span_zeroAll (famOf val sh.coefs) (rowColPairs val sh.coefs) (rowColPairs_single val sh.coefs) hnd', span_famOf]
 
 /-- the literal written by the zeroing step is a zero, and `optimize_general` first makes the
 basis general with `skip_spdf = True` (both read from the source) -/
